@@ -380,10 +380,63 @@ func raceC06(seed uint64, seconds int) {
 			}
 		}(di)
 	}
+	// façade registrations: two goroutines register through two façades (each with middlewares of its own) of one locked
+	// router and hand BOTH the same middleware list, a slice with spare capacity. The list belongs to the caller: a façade
+	// that appends its own middlewares to it in place writes the caller's backing array outside the router lock (a data
+	// race the detector reports, and a route registered with the other façade's middleware).
+	var nFacade atomic.Int64
+	wg.Add(1)
+	go func() {
+		defer wg.Done()
+		tag := func(name string) types.Middleware[*H] {
+			return types.MiddlewareFunc[*H](func(next *H, method, pattern, router string) *H {
+				c := *next
+				c.base = next.base + "<" + name
+				return &c
+			})
+		}
+		for !stop.Load() {
+			fr := mux.NewRouter("fac", raceCall, &H{base: "notFound"}, notAllowedBuilder, optionsBuilder, mux.WithLock(true))
+			common := make([]types.Middleware[*H], 1, 4)
+			common[0] = tag("log")
+			pa := fr.Prefix("/admin", tag("admin"))
+			pb := fr.Resource("/public/items", tag("public"))
+			var fw sync.WaitGroup
+			start := make(chan struct{})
+			fw.Add(2)
+			go func() {
+				defer fw.Done()
+				defer func() { recover() }()
+				<-start
+				for k := 0; k < 4; k++ {
+					pa.Handle("/r"+strconv.Itoa(k), &H{base: "user:1", hid: 1}, common, "GET")
+				}
+			}()
+			go func() {
+				defer fw.Done()
+				defer func() { recover() }()
+				<-start
+				for _, m := range []string{"GET", "POST", "PUT", "DELETE"} {
+					pb.Handle(&H{base: "user:2", hid: 2}, common, m)
+				}
+			}()
+			close(start)
+			fw.Wait()
+			nFacade.Add(1)
+			for k := 0; k < 4; k++ {
+				if res, fault := serveOnce(fr, "GET", "/admin/r"+strconv.Itoa(k)); fault != nil || res == nil || res.base != "user:1<log<admin" {
+					rep.badf("façade race: GET /admin/r%d is served through %+v (fault %v); registered through the /admin façade with [log]: want user:1<log<admin", k, res, fault)
+				}
+			}
+			if res, fault := serveOnce(fr, "POST", "/public/items"); fault != nil || res == nil || res.base != "user:2<log<public" {
+				rep.badf("façade race: POST /public/items is served through %+v (fault %v); want user:2<log<public", res, fault)
+			}
+		}
+	}()
 	time.Sleep(time.Duration(seconds) * time.Second)
 	stop.Store(true)
 	wg.Wait()
-	st, _ := json.Marshal(map[string]int64{"serves": nServe.Load(), "writes": nWrite.Load(), "routes": nRoutes.Load(), "urls": nURL.Load(), "bursts": nBursts.Load(), "duels": nDuels.Load(), "bad": int64(rep.bad), "writers": int64(writers), "readers": int64(readers)})
+	st, _ := json.Marshal(map[string]int64{"facades": nFacade.Load(), "serves": nServe.Load(), "writes": nWrite.Load(), "routes": nRoutes.Load(), "urls": nURL.Load(), "bursts": nBursts.Load(), "duels": nDuels.Load(), "bad": int64(rep.bad), "writers": int64(writers), "readers": int64(readers)})
 	fmt.Printf("STATS %s\n", st)
 	if rep.bad > 0 {
 		os.Exit(1)
